@@ -187,6 +187,17 @@ class Prop(common.PropertyCheck):
                         else:
                             v[:, 1] = np.clip(v[:, 1], 1.0, 50.0)
                         mins.append(float(v[:, 1].min())); maxs.append(float(v[:, 1].max()))
+                if case['multi']:
+                    # the caller's list is used for another channel first (as the two axes of a scatter plot are): the list and its members stay as they were
+                    saved = list(datas)
+                    shapes = [np.asarray(x).shape for x in datas]
+                    try:
+                        FlowCal.plot._LogicleTransform(data=datas, channel=0)
+                    except Exception:
+                        pass
+                    if len(datas) != len(saved) or any(a is not b for a, b in zip(datas, saved)) or [np.asarray(x).shape for x in datas] != shapes:
+                        return {'list_changed': 'building a transform for channel 0 from a list of %d samples changed the list: members now have shapes %s (were %s)' % (
+                            len(saved), [np.asarray(x).shape for x in datas], shapes), 'mins': mins, 'maxs': maxs, 'ranges': ranges, 'kw': kw}
                 t = FlowCal.plot._LogicleTransform(data=datas if case['multi'] else datas[0], channel=1, **kw)
             except Exception as e:
                 return {'err': type(e).__name__ + ':' + str(e)[:80], 'mins': mins, 'maxs': maxs, 'ranges': ranges, 'kw': kw}
@@ -231,6 +242,8 @@ class Prop(common.PropertyCheck):
                 return 'the inverse called with its default arguments returns masked / non-finite / other values on the transform of [0, M] (T=%r M=%r W=%r)' % (case['T'], case['M'], case['W'])
             return None
         # data-derived
+        if impl.get('list_changed'):
+            return impl['list_changed']
         kw = impl['kw']
         # per sample: the upper range limit where the sample knows its range, its largest event otherwise
         T = max(r if r is not None else mx for r, mx in zip(impl['ranges'], impl['maxs']))
